@@ -79,6 +79,16 @@ def parseProj (j : Json) : RawProj :=
 def ratJson (q : Rat) : Json := Json.arr #[Json.num (JsonNumber.fromInt q.num), Json.num (JsonNumber.fromInt q.den)]
 def optInt (o : Option Int) : Json := match o with | some v => Json.num (JsonNumber.fromInt v) | none => Json.null
 
+/-- decidable form of `Elig` for the common case: one allocated resource, no alternative -/
+def eligB (e : Env) (t : Nat) : Bool :=
+  let d := e.taskD t
+  d.leaf && d.hasAlloc && !d.milestone && decide (d.effort > 0) && d.alloc.length == 1 && d.alt.isEmpty
+
+/-- decidable form of `FwdEff` -/
+def fwdEffB (e : Env) (t : Nat) : Bool :=
+  let d := e.taskD t
+  d.leaf && d.hasAlloc && !d.milestone && decide (d.effort > 0) && !d.startProvided
+
 def runSched (j : Json) : Json :=
   let p := parseProj j
   let el := elaborate p
@@ -93,7 +103,26 @@ def runSched (j : Json) : Json :=
                 ("usage", Json.arr (s.usage.map (fun u => Json.arr #[Json.num (JsonNumber.fromNat u.1), ratJson u.2])).toArray)])
   let cnt := σ.cnt.m.toList.map (fun (k, v) =>
     Json.arr #[Json.num (JsonNumber.fromNat k.1), Json.num (JsonNumber.fromInt k.2), Json.num (JsonNumber.fromInt v)])
-  Json.mkObj [("end", Json.num (JsonNumber.fromInt (Elab.abs p e.stop))), ("wf", Json.bool (wfCheck e)), ("size", Json.num (JsonNumber.fromInt e.size)),
+  -- instances of the global theorems on this run: hypotheses counted, conclusions evaluated
+  let eligs := (List.range e.tasks.size).filter (fun t => eligB e t)
+  let eligSched := eligs.filter (fun t => (σ.tst t).scheduled)
+  let effortFail := eligSched.filter (fun t =>
+    let r := (e.taskD t).alloc.headD 0
+    let secs := σ.led.m.toList.foldl (fun (acc : Rat) (ks : Key × Slot) =>
+      if ks.1.1 == r then acc + (usageOf ks.2.usage t).getD 0 else acc) 0
+    !(secs / 3600 * (e.resD r).eff == (e.taskD t).effort))
+  let fwds := (List.range e.tasks.size).filter (fun t => fwdEffB e t && (σ.tst t).scheduled && (σ.tst t).forward)
+  let depPairs := fwds.flatMap (fun t => ((e.taskD t).allDeps.filter (fun dp => (e.taskD dp.target).leaf)).map (fun dp => (t, dp)))
+  let depFail := depPairs.filter (fun (td : Nat × Dep) =>
+    let dt := if td.2.onstart then (σ.tst td.2.target).start else (σ.tst td.2.target).stop
+    match dt, (σ.tst td.1).start with
+    | some d, some v => !((σ.tst td.2.target).scheduled && decide (d + td.2.gap ≤ v))
+    | _, _ => !(σ.tst td.2.target).scheduled)
+  let thm := Json.mkObj [("elig", Json.num (JsonNumber.fromNat eligs.length)), ("elig_scheduled", Json.num (JsonNumber.fromNat eligSched.length)),
+                         ("effort_exact_fail", Json.num (JsonNumber.fromNat effortFail.length)),
+                         ("fwd_scheduled", Json.num (JsonNumber.fromNat fwds.length)), ("dep_edges", Json.num (JsonNumber.fromNat depPairs.length)),
+                         ("dep_fail", Json.num (JsonNumber.fromNat depFail.length))]
+  Json.mkObj [("end", Json.num (JsonNumber.fromInt (Elab.abs p e.stop))), ("wf", Json.bool (wfCheck e)), ("size", Json.num (JsonNumber.fromInt e.size)), ("thm", thm),
               ("tasks", Json.arr tasks.toArray), ("ledger", Json.arr led.toArray), ("counters", Json.arr cnt.toArray),
               ("warnings", Json.arr (σ.warnings.map Json.str).toArray)]
 
